@@ -2,6 +2,7 @@
 //! through its public API.  One case per stdin line, one answer line per case.
 mod kbd_cmd;
 mod lcd_cmd;
+mod mem_cmd;
 mod regs_cmd;
 mod sched_cmd;
 mod timer_cmd;
@@ -23,6 +24,7 @@ fn handle(words: &[&str]) -> String {
         Some("lcd_rs") => lcd_cmd::run(&words[1..]),
         Some("kbd_rs") => kbd_cmd::run(&words[1..]),
         Some("sched") => sched_cmd::run(&words[1..]),
+        Some("mem_rs") => mem_cmd::run(&words[1..]),
         Some("asynccpu") => sched_cmd::run_cpu(&words[1..]),
         Some(c) => format!("ERR unknown-command {c}"),
         None => "ERR empty".to_string(),
